@@ -38,6 +38,17 @@ Theorem C46_endpoint_meets_spec_io : forall mps ep sb, 8 <= mps -> mps mod 4 = 0
 Proof. exact ssin_accepted_io. Qed.
 Print Assumptions C46_endpoint_meets_spec_io.
 
+(* What the referee's acceptance means for the data -- a statement about the specification alone, for ANY
+   endpoint (no model involved): along every interface trace that the referee judges and accepts, the bytes accepted
+   from the stream are, in order, the bytes of the packets the host acknowledged followed by the bytes still pending;
+   no acknowledged packet is longer than max_packet_size.  (Exactly once, in order.) *)
+Theorem C46_exactly_once_in_order : forall mps ep sb ios r',
+  ref_run_io mps ep sb ref_init ios = Some r' ->
+  items_bytes (stream_log ios) = items_bytes (concat (acked_log mps ep sb ref_init ios)) ++ items_bytes (r_pend r') /\
+  Forall (fun p => pkt_bytes p <= mps) (acked_log mps ep sb ref_init ios).
+Proof. intros mps ep sb ios r' H. exact (referee_exactly_once mps ep sb ios ref_init r' H). Qed.
+Print Assumptions C46_exactly_once_in_order.
+
 (* The packed model is a faithful coding of the typed one (used by the lock-step tie). *)
 Theorem C46_model_packing : forall s, ss_wf s -> ss_dec (ss_enc s) = s.
 Proof. exact ss_dec_enc. Qed.
@@ -73,6 +84,12 @@ Definition session : list N :=
 Example C46_session_judged :
   option_map (fun r => (r_exp r, r_pend r, r_out r))
     (ref_run_io 8 1 5 ref_init (combine session (run (ss_step 8 1 5) ss_init session))) = Some (3, [], false).
+Proof. vm_compute. reflexivity. Qed.
+
+(* the packets the host acknowledged in that session: 8 bytes, the zero-length packet, 3 bytes *)
+Example C46_session_delivered :
+  map items_bytes (acked_log 8 1 5 ref_init (combine session (run (ss_step 8 1 5) ss_init session))) =
+  [ [68; 51; 34; 17; 221; 204; 187; 170]; []; [102; 102; 102] ].
 Proof. vm_compute. reflexivity. Qed.
 
 (* what the host saw in that session, per cycle: (tx.valid, tx_zlp, tx_sequence_number, send_nrdy, send_erdy) *)
